@@ -132,6 +132,9 @@ fn file_case(toks: &[&str]) -> String {
     let e = LogEvent::new(lvl, tags);
     let td = temp_dir::TempDir::new().unwrap();
     let prefix = td.path().join("log");
+    // a file an earlier run left behind: small, recent, and ending in the middle of a line (the run was killed, or the
+    // disk was full).  Every event of THIS run, the writer's own start event included, still gets a line of its own.
+    std::fs::write(td.path().join("log.20200101T000000Z-0"), b"{\"time\":\"2020-01-01T00:00:00Z\",\"level\":\"info\",\"msg\":\"cut he").unwrap();
     let sender = match servlin::log::LogFileWriter::new_builder(prefix, 50 * 1024 * 1024)
         .with_max_write_bytes(64 * 1024)
         .start_writer_thread()
@@ -165,7 +168,19 @@ fn file_case(toks: &[&str]) -> String {
         last = now;
     }
     drop(sender);
+    // the leftover's unterminated tail is not a line of this run: take it off the front (file names sort it first)
+    let leftover_len = b"{\"time\":\"2020-01-01T00:00:00Z\",\"level\":\"info\",\"msg\":\"cut he".len();
+    let glued = last.len() > leftover_len && last[leftover_len] != b'{';
+    let last: Vec<u8> = last[leftover_len.min(last.len())..].to_vec();
     let start_end = last.iter().position(|b| *b == b'\n').map_or(0, |p| p + 1);
+    let start_line = &last[..start_end];
+    let start_ok = !glued
+        && start_line.starts_with(b"{\"time\":\"")
+        && {
+            let pat: &[u8] = b"\"msg\":\"Starting log writer\"";
+            start_line.windows(pat.len()).any(|w| w == pat)
+        }
+        && start_line.ends_with(b"}\n");
     let mut s = format!("F{}", floats.len());
     for f in &floats {
         s.push(' ');
@@ -173,6 +188,10 @@ fn file_case(toks: &[&str]) -> String {
     }
     s.push_str(" L ");
     s.push_str(&tok_of_bytes(&last[start_end..]));
+    if !start_ok {
+        // reported by making the observation unparsable for the driver: the start event has no line of its own
+        return format!("start-event-has-no-line-of-its-own {}", tok_of_bytes(&start_line[..start_line.len().min(120)]));
+    }
     s
 }
 
